@@ -408,10 +408,28 @@ def judge_circuit(d, combos_mode, tier, res, only=None, only_div=None, ladder=Fa
                 f2 = {sid: shape_fn(sh, 2 * t_end, amps[sid]) for sid, sh in zip(src_ids, combo)}
                 s1 = TransientSolution(circuit=adapt.circuit(d), tin=t, input=f1)
                 s2 = TransientSolution(circuit=circ2, tin=2 * t, input=f2)
+                # time shift: the same circuit on the grid t + t0 (a float array that does not start at 0) with inputs u(t - t0)
+                t0 = 37 * h
+                t_sh = t + t0
+                t_sh_before = t_sh.copy()
+                # (instants are mapped back to the exact grid values k*h, so that rounding in (t + t0) - t0 cannot move a step edge)
+                f3 = {sid: (lambda tt, g=g, t0=t0: g(np.rint((np.asarray(tt, float) - t0) / h) * h)) for sid, g in f1.items()}
+                s3 = TransientSolution(circuit=adapt.circuit(d), tin=t_sh, input=f3)
+                if not np.array_equal(t_sh, t_sh_before):
+                    add_violation(res, "exact_pwl_response", dict(case, time_shift=float(t0)), "time axis left as given", float(np.abs(t_sh - t_sh_before).max()), "the simulation changed the time array it was given")
+                    raise StopIteration
+                if np.abs(np.asarray(s3.t, float) - t_sh_before).max() > 1e-9 * t_sh_before[-1]:
+                    add_violation(res, "exact_pwl_response", dict(case, time_shift=float(t0)), "output instants = given instants", float(np.abs(np.asarray(s3.t, float) - t_sh_before).max()), "reported instants are not the given ones on a grid that does not start at 0")
+                    raise StopIteration
                 for kind, names in (("get_potential", nodes), ("get_voltage", ids), ("get_current", ids)):
                     for nm in names:
                         y1 = np.asarray(getattr(s1, kind)(nm)[1], float)
                         y2 = np.asarray(getattr(s2, kind)(nm)[1], float)
+                        y3 = np.asarray(getattr(s3, kind)(nm)[1], float)
+                        if y3.shape != y1.shape or np.abs(y1 - y3).max() > 1e-7 * max([np.abs(np.asarray(getattr(s1, kind)(x)[1], float)).max() for x in names] + [np.abs(y1).max(), 1e-300]):
+                            add_violation(res, "exact_pwl_response", dict(case, output=[kind, nm], time_shift=float(t0)), float(np.abs(y1).max()), float(np.abs(y1 - y3).max()) if y3.shape == y1.shape else list(y3.shape),
+                                          "%s(%s): the response on the grid t + t0 to inputs u(t - t0) is not the response on the grid t" % (kind, nm))
+                            raise StopIteration
                         sc = max(np.abs(y1).max(), np.abs(y2).max(), 1e-300)
                         ref_sc = max([np.abs(np.asarray(getattr(s1, kind)(x)[1], float)).max() for x in names] + [1e-300])
                         if np.abs(y1 - y2).max() > 1e-7 * max(sc, ref_sc):
